@@ -71,7 +71,9 @@ Theorem ownership_partition_through_failures :
   Inv (FailPath.f_fs st) /\
   (forall b, (FailPathProofs.cnt b owned <= 1)%nat) /\
   (forall b, DS <= b < dev_sectors (FailPath.f_fs st) -> (free (FailPath.f_fs st) b <-> FailPathProofs.cnt b owned = O)) /\
-  FailPath.f_usage st = FailPathProofs.sum_blocks owned.
+  FailPath.f_usage st = FailPathProofs.sum_blocks owned
+(* ... and with deletes of published records: their extents stay owned (waiting in the retirement
+   queue) until the retirement gives them back; reclaim-and-retry on a full device included *).
 Proof. exact FailPathProofs.ownership_partition_through_failures. Qed.
 Check ownership_partition_through_failures :
   forall fault d f cs,
@@ -81,8 +83,33 @@ Check ownership_partition_through_failures :
   Inv (FailPath.f_fs st) /\
   (forall b, (FailPathProofs.cnt b owned <= 1)%nat) /\
   (forall b, DS <= b < dev_sectors (FailPath.f_fs st) -> (free (FailPath.f_fs st) b <-> FailPathProofs.cnt b owned = O)) /\
-  FailPath.f_usage st = FailPathProofs.sum_blocks owned.
+  FailPath.f_usage st = FailPathProofs.sum_blocks owned
+(* ... and with deletes of published records: their extents stay owned (waiting in the retirement
+   queue) until the retirement gives them back; reclaim-and-retry on a full device included *).
 Print Assumptions ownership_partition_through_failures.
+
+Theorem ownership_partition_with_deletes :
+  forall fault d f cs,
+  d < U64 -> initialize d = FOk f ->
+  let rs := FailPathProofs.rcalls fault (FailPath.rinit f) cs in
+  let st := FailPath.r_core rs in
+  let owned := FailPath.exts_of (FailPath.f_queue st) ++ map snd (FailPath.f_durable st) ++ map snd (FailPath.r_pending rs) in
+  Inv (FailPath.f_fs st) /\
+  (forall b, (FailPathProofs.cnt b owned <= 1)%nat) /\
+  (forall b, DS <= b < dev_sectors (FailPath.f_fs st) -> (free (FailPath.f_fs st) b <-> FailPathProofs.cnt b owned = O)) /\
+  FailPath.f_usage st = FailPathProofs.sum_blocks owned.
+Proof. exact FailPathProofs.ownership_partition_with_deletes. Qed.
+Check ownership_partition_with_deletes :
+  forall fault d f cs,
+  d < U64 -> initialize d = FOk f ->
+  let rs := FailPathProofs.rcalls fault (FailPath.rinit f) cs in
+  let st := FailPath.r_core rs in
+  let owned := FailPath.exts_of (FailPath.f_queue st) ++ map snd (FailPath.f_durable st) ++ map snd (FailPath.r_pending rs) in
+  Inv (FailPath.f_fs st) /\
+  (forall b, (FailPathProofs.cnt b owned <= 1)%nat) /\
+  (forall b, DS <= b < dev_sectors (FailPath.f_fs st) -> (free (FailPath.f_fs st) b <-> FailPathProofs.cnt b owned = O)) /\
+  FailPath.f_usage st = FailPathProofs.sum_blocks owned.
+Print Assumptions ownership_partition_with_deletes.
 Example partition_unfolds : forall o, OInv o ->
   forall b, FEOX_DATA_START_BLOCK <= b < dev_sectors (ofs o) -> (free (ofs o) b <-> ~ owned_blk o b).
 Proof. intros o [_ H _ _]. exact H. Qed.
